@@ -328,7 +328,7 @@ def obligations(tier):
     for sel in ([[0], [2, 0]] if tier == "quick" else [[0], [2, 0], [1, 2], [0, 1, 2], [1, 1]]):
         obs.append(OPVLatent(n=3, h=2, t=1, sel=sel))
     if tier == "thorough":
-        obs.append(OPVLatent(n=2, h=3, t=2, sel=[1, 0]))
+        obs.append(OPVLatent(n=2, h=3, t=1, sel=[1, 0]))
     layouts = [(2,), (3,), (4,), (2, 2), (3, 1), (3, 2)] if tier == "quick" else \
         [(2,), (3,), (4,), (5,), (2, 2), (3, 2), (2, 3), (1, 3), (3, 3), (2, 2, 1), (2, 2, 2)]
     for sizes in layouts:
